@@ -33,6 +33,12 @@ var cliExtra = map[string]map[string]string{
 
 func init() {
 	cliPrograms["okimp"] = "import (\n\t\"strings\"\n\th \"lib/helper.tsh\"\n)\n\nprint(h.Tag(\"a\"), h.Tag(strings.Repeat(\"b\", 2)))\n"
+	// programs with nothing to execute: the library still returns a script (prologue / epilogue), and tsh must write exactly that
+	cliPrograms["funcsonly"] = "func add(a int, b int) int {\n\treturn a + b\n}\nfunc twice(n int) int {\n\treturn add(n, n)\n}\n"
+	cliPrograms["comment"] = "// nothing but a comment\n/* and a block comment */\n"
+	cliPrograms["importonly"] = "import \"strings\"\n"
+	cliPrograms["empty"] = ""
+	cliPrograms["blank"] = "\n\n   \n"
 	cliPrograms["impbad"] = "import h \"lib/helper.tsh\"\n\nprint(h.Over(4))\n"
 }
 
